@@ -8,6 +8,7 @@ import PyroModel.Wire
 import PyroModel.Gen.C06
 import PyroModel.C06AstRun
 import PyroProofs.WireStages
+import PyroProps.C06
 
 set_option linter.unusedSimpArgs false
 
@@ -379,5 +380,112 @@ theorem validate_translated (cfg : PyIR.Cfg) (h6 : Bytes) (hl : h6.length = 6) :
   simp only [tagPYRO]
   by_cases ht : List.take 4 h6 = [80, 89, 82, 79] <;> by_cases hp : List.drop 4 h6 = [1, 246] <;>
     simp [Gen.C06.validateSrc, exec, truth, eval, truthy, List.lookup_cons, hl, ht, hp, hd, e64, htB, hpB, hsw]
+
+/-! ### the whole decode path, assembled from the transcribed functions
+
+`recv_stub` itself is twelve lines of glue: read 6 bytes, `validate`, read the other 34, construct the message (`__init__`),
+filter the message type, read `annotations_size + data_size` bytes, `add_payload`.  `recvStubSrc` is that glue written in Lean
+around the three *transcribed* functions (run by the PyIR interpreter); the theorem says the assembly is the model's `recvStub`
+for every stream, so every C06 theorem about `recvStub` is a theorem about the transcriptions composed this way.  (That the glue
+itself reads in this order and nothing else is checked on the real `recv_stub` by the correspondence run: requested-byte
+counts and outcomes, per input.) -/
+
+def recvStubSrc (cfg : PyIR.Cfg) (accepted : List Nat) (stream : Bytes) : Option StubResult :=
+  match recvN 6 stream with
+  | none => some ⟨.error .closed, 6, []⟩
+  | some (h6, s1) =>
+    match runValidate cfg Gen.C06.validateSrc h6 with
+    | .raise (.exc .protocolError _ _) _ _ => some ⟨.error .protocol, 6, s1⟩
+    | .normal _ _ =>
+      match recvN (headerSize - 6) s1 with
+      | none => some ⟨.error .closed, headerSize, []⟩
+      | some (h34, s2) =>
+        match toHeader (runInit cfg Gen.C06.initSrc (h6 ++ h34)) with
+        | some (.error e) => some ⟨.error e, headerSize, s2⟩
+        | some (.ok hdr) =>
+          if !accepted.isEmpty && !accepted.contains hdr.type then some ⟨.error .badType, headerSize, s2⟩
+          else match recvN (hdr.annSize + hdr.dataSize) s2 with
+            | none => some ⟨.error .closed, headerSize + hdr.annSize + hdr.dataSize, []⟩
+            | some (body, s3) =>
+              match toDecoded hdr (runAddPayload cfg Gen.C06.addPayloadSrc hdr body) with
+              | some out => some ⟨out, headerSize + hdr.annSize + hdr.dataSize, s3⟩
+              | none => none
+        | none => none
+    | _ => none
+
+theorem recvN_length {n : Nat} {s a b : Bytes} (h : recvN n s = some (a, b)) : a.length = n := by
+  unfold recvN at h
+  split at h
+  · cases h; simp; omega
+  · cases h
+
+/-- **C06_source_recvStub.**  The transcribed `validate`, `__init__` and `add_payload`, assembled the way `recv_stub` calls
+    them, decode every stream exactly as the model's `recvStub` does (same outcome, same bytes requested, same rest). -/
+theorem C06_source_recvStub (cfg : PyIR.Cfg) (wcfg : Wire.Cfg) (z : Zlib) (hm : cfg.maxSize = wcfg.maxSize)
+    (hz : cfg.unzip = z.decompress) (accepted : List Nat) (stream : Bytes) :
+    recvStubSrc cfg accepted stream = some (recvStub wcfg z accepted stream) := by
+  unfold recvStubSrc recvStub
+  cases h6e : recvN 6 stream with
+  | none => rfl
+  | some p =>
+    obtain ⟨h6, s1⟩ := p
+    have hl6 := recvN_length h6e
+    obtain ⟨hbad, hgood⟩ := validate_translated cfg h6 hl6
+    simp only []
+    cases hb : prefixBad h6 with
+    | true =>
+      obtain ⟨env, w, hv⟩ := hbad hb
+      rw [hv]
+      simp only [prefixBad, Bool.or_eq_true, bne_iff_ne, ne_eq] at hb
+      rcases hb with hb | hb
+      · simp [hb]
+      · by_cases ht : List.take 4 h6 = tagPYRO
+        · simp [ht, hb]
+        · simp [ht]
+    | false =>
+      obtain ⟨env, w, hv⟩ := hgood hb
+      rw [hv]
+      simp only [prefixBad, Bool.or_eq_false_iff, bne_eq_false_iff_eq] at hb
+      simp only [hb.1, hb.2, ne_eq, not_true_eq_false, if_false]
+      cases h34e : recvN (headerSize - 6) s1 with
+      | none => rfl
+      | some q =>
+        obtain ⟨h34, s2⟩ := q
+        have hl34 := recvN_length h34e
+        have h40 : (h6 ++ h34).length = 40 := by simp [hl6, hl34, headerSize]
+        simp only []
+        rw [init_translated cfg wcfg hm (h6 ++ h34) h40]
+        simp only [recvStage2]
+        cases hp : parseHeader wcfg (h6 ++ h34) with
+        | error e => rfl
+        | ok hdr =>
+          simp only []
+          split
+          · rfl
+          · simp only [recvStage3]
+            cases hbe : recvN (hdr.annSize + hdr.dataSize) s2 with
+            | none => rfl
+            | some r =>
+              obtain ⟨body, s3⟩ := r
+              simp only []
+              rw [addPayload_translated z cfg hz hdr body]
+
+/-- **"accepts only what is well formed", about the assembled transcriptions**: whatever byte string they accept is a 40-byte
+    header that parses, an annotation area tiled exactly by chunks, exactly `data_size` data bytes and the untouched rest, and
+    exactly the message's bytes were requested (the conclusion of `C06_accepts_only_wellformed`, transferred). -/
+theorem C06_source_accepts_only_wellformed (cfg : PyIR.Cfg) (wcfg : Wire.Cfg) (z : Zlib) (hm : cfg.maxSize = wcfg.maxSize)
+    (hz : cfg.unzip = z.decompress) (accepted : List Nat) (stream : Bytes) (d : Decoded) (n : Nat) (rest : Bytes)
+    (h : recvStubSrc cfg accepted stream = some ⟨.ok d, n, rest⟩) :
+    ∃ (hdr : Bytes) (H : Header) (chunks : List (Bytes × Bytes)) (data : Bytes),
+      stream = hdr ++ (rawChunks chunks ++ (data ++ rest)) ∧
+      hdr.length = headerSize ∧ parseHeader wcfg hdr = .ok H ∧
+      (rawChunks chunks).length = H.annSize ∧ data.length = H.dataSize ∧
+      n = headerSize + H.annSize + H.dataSize ∧
+      d.anns = chunks.foldl (fun a c => dictSet a (c.1.map UInt8.toNat) c.2) [] := by
+  rw [C06_source_recvStub cfg wcfg z hm hz] at h
+  have h' : recvStub wcfg z accepted stream = ⟨.ok d, n, rest⟩ := by injection h
+  obtain ⟨hdr, H, chunks, data, h1, h2, h3, h4, h5, h6, _, h8, _⟩ :=
+    Pyro.C06.C06_accepts_only_wellformed wcfg z accepted stream d n rest h'
+  exact ⟨hdr, H, chunks, data, h1, h2, h3, h4, h5, h6, h8⟩
 
 end Pyro.C06Ast
